@@ -78,7 +78,11 @@ class LazyMixin:
             return self.domain(DictView("keys", src), hint)
         if isinstance(src, SV) and src.ty.kind == "set":
             k = z3.Const(f"{hint}${len(self.binders)}",self.w.sort(src.ty.args[0]))
-            return k, z3.Select(src.term, k), SV(k, src.ty.args[0]), None, None
+            if src.term is None:
+                return k, z3.BoolVal(False), SV(k, src.ty.args[0]), None, None
+            # a set is iterated in an arbitrary order that is a function of its members only
+            size, _, posf = self._keyset_order(src.term, self.w.sort(src.ty.args[0]), "set")
+            return k, z3.Select(src.term, k), SV(k, src.ty.args[0]), posf(None, k), size
         raise Unsupported(f"iteration over {src.ty if isinstance(src, SV) else type(src).__name__}")
 
     def _join_all(self, tys):
@@ -227,6 +231,11 @@ class LazyMixin:
         self.side_fact((n > 0) == ex)
         if size is not None:
             self.side_fact(n <= size)
+        if not self.binders and var.sort() == z3.IntSort() and not facts:
+            # `len(xs) > 1`: more than one element passes the filter iff two different source positions do
+            v2 = z3.Const(f"cnt2${next(_lc)}", var.sort())
+            both = z3.And(dom, cond, z3.substitute(dom, (var, v2)), z3.substitute(cond, (var, v2)), var < v2)
+            self.side_fact((n > 1) == z3.Exists([var, v2], both))
         return n
 
     def materialize(self, lz: LazySeq) -> SV:
@@ -296,6 +305,14 @@ class LazyMixin:
                                                    z3.And(0 <= inv(var), inv(var) < n, idx(inv(var)) == var)),
                                  patterns=[inv(var)] + extra))
         self.side_fact(n <= size)
+        # ground instances for the first two elements (no term idx(0) / idx(1) exists to trigger the axioms above):
+        # what `xs[0]`, `if xs:` and `len(xs) > 1` on a filtered list rely on
+        for g0 in (0, 1):
+            gi = z3.IntVal(g0)
+            self.side_fact(z3.Implies(gi < n, z3.And(sub(dom, idx(gi)), sub(cond, idx(gi)),
+                                                     self.list_get(Lsv, gi) == sub(elt.term, idx(gi)),
+                                                     inv(idx(gi)) == gi)))
+        self.side_fact(z3.Implies(z3.IntVal(1) < n, sub(pos, idx(z3.IntVal(0))) < sub(pos, idx(z3.IntVal(1)))))
         return Lsv
 
     # ------------------------------------------------------ comprehensions
@@ -362,5 +379,5 @@ class LazyMixin:
                 z3.And(sub(dom, wit(k)), sub(cond, wit(k)), sub(kv.term, wit(k)) == k,
                        z3.Select(s.accessor(0, 1)(D), k) == sub(vv.term, wit(k)),
                        z3.ForAll([var], z3.Implies(z3.And(dom, cond, kv.term == k), pos <= sub(pos, wit(k)))))),
-                patterns=[wit(k)]))
+                patterns=[wit(k), z3.Select(s.accessor(0, 1)(D), k), z3.Select(s.accessor(0, 0)(D), k)]))
         return SV(D, t, fresh=True)
